@@ -2338,6 +2338,13 @@ func (self *LockDB) UnLock(serverProtocol ServerProtocol, command *protocol.Lock
 
 	lockManager := self.GetLockManager(command)
 	if lockManager == nil {
+		if self.status != STATE_LEADER && command.Flag&protocol.UNLOCK_FLAG_FROM_AOF == 0 {
+			// not the leader: this node cannot know whether the key is held
+			_ = serverProtocol.ProcessLockResultCommand(command, protocol.RESULT_STATE_ERROR, 0, 0, nil)
+			_ = serverProtocol.FreeLockCommand(command)
+			atomic.AddUint32(&self.states[self.managerMaxGlocks].UnlockErrorCount, 1)
+			return nil
+		}
 		_ = serverProtocol.ProcessLockResultCommand(command, protocol.RESULT_UNLOCK_ERROR, 0, 0, nil)
 		_ = serverProtocol.FreeLockCommand(command)
 		atomic.AddUint32(&self.states[self.managerMaxGlocks].UnlockErrorCount, 1)
